@@ -1,5 +1,6 @@
 import EpdVerif.AuditCmd
 import EpdVerif.Props.C08
 import EpdVerif.Props.C08Big
+import EpdVerif.Props.C08Sleep
 import EpdVerif.Props.Panels
 #audit_namespace EpdVerif.Props.C08
